@@ -152,21 +152,21 @@ HoldsStrict == \A c \in fails : IsKnown(c)
 
 (* domain-only specification for -coverage *)
 RunDom == /\ ph = 0 /\ ph' = 1 /\ dom' = Domain /\ UNCHANGED <<op, i, fails>>
-Tally(name, indom) == /\ ph = 1 /\ op = name /\ dom = indom /\ ph' = 2 /\ UNCHANGED <<op, i, dom, fails>>
-In_next == Tally("next", TRUE)
-Out_next == Tally("next", FALSE)
-In_pow2 == Tally("pow2", TRUE)
-Out_pow2 == Tally("pow2", FALSE)
-In_sum3 == Tally("sum3", TRUE)
-Out_sum3 == Tally("sum3", FALSE)
-In_sum4 == Tally("sum4", TRUE)
-Out_sum4 == Tally("sum4", FALSE)
-In_muladd == Tally("muladd", TRUE)
-Out_muladd == Tally("muladd", FALSE)
-In_dot2 == Tally("dot2", TRUE)
-Out_dot2 == Tally("dot2", FALSE)
-In_fma == Tally("fma", TRUE)
-Out_fma == Tally("fma", FALSE)
+\* (each action is written out: TLC's coverage names an action after the definition that contains it)
+In_next == ph = 1 /\ op = "next" /\ dom /\ ph' = 2 /\ UNCHANGED <<op, i, dom, fails>>
+Out_next == ph = 1 /\ op = "next" /\ ~dom /\ ph' = 2 /\ UNCHANGED <<op, i, dom, fails>>
+In_pow2 == ph = 1 /\ op = "pow2" /\ dom /\ ph' = 2 /\ UNCHANGED <<op, i, dom, fails>>
+Out_pow2 == ph = 1 /\ op = "pow2" /\ ~dom /\ ph' = 2 /\ UNCHANGED <<op, i, dom, fails>>
+In_sum3 == ph = 1 /\ op = "sum3" /\ dom /\ ph' = 2 /\ UNCHANGED <<op, i, dom, fails>>
+Out_sum3 == ph = 1 /\ op = "sum3" /\ ~dom /\ ph' = 2 /\ UNCHANGED <<op, i, dom, fails>>
+In_sum4 == ph = 1 /\ op = "sum4" /\ dom /\ ph' = 2 /\ UNCHANGED <<op, i, dom, fails>>
+Out_sum4 == ph = 1 /\ op = "sum4" /\ ~dom /\ ph' = 2 /\ UNCHANGED <<op, i, dom, fails>>
+In_muladd == ph = 1 /\ op = "muladd" /\ dom /\ ph' = 2 /\ UNCHANGED <<op, i, dom, fails>>
+Out_muladd == ph = 1 /\ op = "muladd" /\ ~dom /\ ph' = 2 /\ UNCHANGED <<op, i, dom, fails>>
+In_dot2 == ph = 1 /\ op = "dot2" /\ dom /\ ph' = 2 /\ UNCHANGED <<op, i, dom, fails>>
+Out_dot2 == ph = 1 /\ op = "dot2" /\ ~dom /\ ph' = 2 /\ UNCHANGED <<op, i, dom, fails>>
+In_fma == ph = 1 /\ op = "fma" /\ dom /\ ph' = 2 /\ UNCHANGED <<op, i, dom, fails>>
+Out_fma == ph = 1 /\ op = "fma" /\ ~dom /\ ph' = 2 /\ UNCHANGED <<op, i, dom, fails>>
 NextDom == \/ RunDom
            \/ In_next \/ Out_next \/ In_pow2 \/ Out_pow2 \/ In_sum3 \/ Out_sum3 \/ In_sum4 \/ Out_sum4
            \/ In_muladd \/ Out_muladd \/ In_dot2 \/ Out_dot2 \/ In_fma \/ Out_fma
